@@ -96,6 +96,16 @@ def scenarios(P):
             'defaults': [], 'conf': {},
             'probes': [('k', []), ('k', ['z1'])],
         },
+        's8-override-of-default-removed': {
+            # the edit REMOVES the operator's override of a registered
+            # default; old (override) and new (default) both deny the probes
+            'old': {'policy.yaml': {'default': '@', 'r': 'role:ovr',
+                                    'x': 'role:x1'}},
+            'new': {'policy.yaml': {'default': '@', 'x': 'role:x1'}},
+            'defaults': lambda: [P.RuleDefault('r', 'role:rr')],
+            'conf': {},
+            'probes': [('r', []), ('r', ['m'])],
+        },
         's5-alias-halves-swap': {
             'old': {'policy.yaml': {'a': 'rule:h1 and rule:h2',
                                     'h1': 'role:p', 'h2': 'role:q'}},
@@ -112,7 +122,8 @@ TIERS = {
                         's1b-main-edit-dir-touched', 's2-dir-edit',
                         's3-defaults-permissive-default',
                         's4-deprecated-defaults', 's6-two-dirs-no-edit',
-                        's7-untouched-rule-of-edited-file'],
+                        's7-untouched-rule-of-edited-file',
+                        's8-override-of-default-removed'],
                   bound=2, reduced=True, opcode=False,
                   probes={'s1-main-edit-dir-override': [2, 1],
                           's1b-main-edit-dir-touched': [1],
@@ -120,7 +131,8 @@ TIERS = {
                           's3-defaults-permissive-default': [2],
                           's4-deprecated-defaults': [2],
                           's6-two-dirs-no-edit': [1],
-                          's7-untouched-rule-of-edited-file': [2]}),
+                          's7-untouched-rule-of-edited-file': [2],
+                          's8-override-of-default-removed': [1]}),
     'thorough': dict(scen=None, bound=2, reduced=False, opcode=True,
                      probes=None),
 }
